@@ -64,8 +64,9 @@ def strategy(draw):
     if dt_jitter and ks == 1:
         ks = 2          # an STA shorter than one sample interval of a component is not a valid request
     sta = ks * dt * draw(st.sampled_from([1.0, 1.0, 1.3, 1.5]))
-    ml = draw(st.integers(int(math.ceil(sta / dt)) + 1, int(n * 0.95)))
-    lta = ml * dt * draw(st.sampled_from([1.0, 1.0, 1.004]))
+    ml = draw(st.one_of(st.integers(int(math.ceil(sta / dt)) + 1, int(n * 0.95)), st.integers(int(math.ceil(sta / dt)) + 1, int(n * 0.95)),
+                        st.sampled_from([n, n - 1])))          # also the usual choice: the LTA spans the whole window
+    lta = ml * dt * (draw(st.sampled_from([1.0, 1.0, 1.004])) if ml < n - 1 else 1.0)
     lo1, hi1 = draw(gen.floats(0.2, 0.9)), draw(gen.floats(1.1, 4.0))
     lo2, hi2 = lo1 * draw(gen.floats(0.2, 1.0)), hi1 * draw(gen.floats(1.0, 3.0))
     comps = list(draw(st.permutations(COMPS)))[:draw(gen.choice([1, 2, 3, 3]))]
@@ -119,7 +120,9 @@ def ref_verdict(x, dt, sta, lta, lo, hi):
     for ks in ks_set:
         for ml in ml_set:
             r = _chunks(x, ks, ml)
-            if r is None or not np.all(np.isfinite(r)):
+            if r is None:
+                continue            # not an admissible reading (longer than the window: the library refuses that, it did not here)
+            if not np.all(np.isfinite(r)):
                 verdicts.add("open")
                 continue
             if np.all(r >= lo * (1 + 1e-6)) and np.all(r <= hi * (1 - 1e-6)):
